@@ -139,14 +139,14 @@ Proof.
   destruct (find_id i (m_gone m)); [discriminate|]. intros H; inversion H; reflexivity.
 Qed.
 
-Section Lift.
+Section LiftK.
 Variable P : sim -> Prop.
 Hypothesis H_fail : forall s e, plain_err e = true -> P s -> P (fail s e).
 (* the one place where an error of the matching engine can surface: a round's call of Market._execution *)
 Hypothesis H_fail_exec : forall s mkid x e,
   find_mkt mkid (s_markets s) = Some x -> cur_switch s = true -> execution (mk_m x) = Err e ->
   P (emit s (EvRound mkid (m_running (mk_m x)) (s_cur s))) -> P (fail (emit s (EvRound mkid (m_running (mk_m x)) (s_cur s))) e).
-Hypothesis H_emit : forall s e, obs_event e -> P s -> P (emit s e).
+Hypothesis H_probe_o : forall s ev k before mkid extra, order_phase k = true -> P s -> P (emit s (ev_probe s ev k before mkid extra)).
 Hypothesis H_callback : forall s aid kind r mkid, P s -> P (callback s aid kind r mkid).
 Hypothesis H_boundary : forall s e, boundary_event e -> P s -> P (flush (write s e)).
 Hypothesis H_accept_order : forall s mkid x ag mk buy p v ttlv m' rc tag,
@@ -174,13 +174,13 @@ Hypothesis H_shock : forall s e x, find_mkt (m_id (mk_m x)) (s_markets s) = Some
 Hypothesis H_set_cur : forall s sid, P s -> P (s <| s_cur := sid |>).
 Hypothesis H_begin_iteration : forall s, P s -> P (begin_iteration s).
 
-Lemma guard_pres s f : (forall s, P s -> P (f s)) -> P s -> P (guard s f).
+Lemma guard_k s f : (forall s, P s -> P (f s)) -> P s -> P (guard s f).
 Proof. intros H Hs. unfold guard. destruct (ok s); auto. Qed.
 
-Lemma callback_pres s aid kind r mkid : P s -> P (callback s aid kind r mkid).
+Lemma callback_k s aid kind r mkid : P s -> P (callback s aid kind r mkid).
 Proof. apply H_callback. Qed.
 
-Lemma before_order_effect_pres s h r : P s -> P (fst (before_order_effect s h r)).
+Lemma before_order_effect_k s h r : P s -> P (fst (before_order_effect s h r)).
 Proof.
   intros H. unfold before_order_effect. destruct r as [tag ag mk buy p v ttlv|]; [|exact H].
   destruct (find_event (h_ev h) (s_events s)) as [e|]; [|exact H].
@@ -191,10 +191,10 @@ Proof.
   - destruct (negb (memz mk targets)); [exact H|].
     destruct (find_mkt mk (s_markets s)) as [x|]; [|apply H_fail; auto].
     destruct (mprice_at x 0); [|apply H_fail; auto]. destruct p; exact H.
-  - simpl. apply H_emit; simpl; auto.
+  - simpl. apply H_probe_o; auto.
 Qed.
 
-Lemma fire_order_before_pres s r t : P s -> P (fst (fire_order_before s r t)).
+Lemma fire_order_before_k s r t : P s -> P (fst (fire_order_before s r t)).
 Proof.
   intros H. unfold fire_order_before.
   generalize (hooks_for s HOrder true t). intros l.
@@ -202,17 +202,17 @@ Proof.
             P (fst (fold_left (fun (acc : sim * request) h =>
                                  if ok (fst acc) then before_order_effect (fst acc) h (snd acc) else acc) l acc))).
   { clear H. intros l0. induction l0 as [|h r0 IH]; simpl; intros acc Ha; auto.
-    apply IH. destruct (ok (fst acc)); auto. apply before_order_effect_pres; auto. }
+    apply IH. destruct (ok (fst acc)); auto. apply before_order_effect_k; auto. }
   apply G. exact H.
 Qed.
 
-Lemma fire_simple_pres s k before t mkid extra : P s -> P (fire_simple s k before t mkid extra).
+Lemma fire_simple_k s k before t mkid extra : order_phase k = true -> P s -> P (fire_simple s k before t mkid extra).
 Proof.
-  intros H. unfold fire_simple. apply fold_left_pres; auto.
-  intros s0 h H0. destruct (ok s0 && is_probe s0 h); auto. apply H_emit; simpl; auto.
+  intros Hk H. unfold fire_simple. apply fold_left_pres; auto.
+  intros s0 h H0. destruct (ok s0 && is_probe s0 h); auto.
 Qed.
 
-Lemma fire_exec_after_pres s t mkid extra : round_ctx mkid s -> P s -> P (fire_exec_after s t mkid extra).
+Lemma fire_exec_after_k s t mkid extra : round_ctx mkid s -> P s -> P (fire_exec_after s t mkid extra).
 Proof.
   intros C H. unfold fire_exec_after. generalize (hooks_for s HExec false t). intros l0. revert s C H.
   induction l0 as [|h r IH]; simpl; intros s C H; auto.
@@ -220,10 +220,115 @@ Proof.
   destruct (find_event (h_ev h) (s_events s)) as [e|] eqn:Fe; [|apply IH; auto].
   apply find_event_In in Fe.
   destruct (es_kind e); try (apply IH; auto; fail).
-  - apply IH; [apply round_ctx_halt; auto|apply H_halt_after; auto].
-  - apply IH; [apply round_ctx_emit; auto|apply H_emit; simpl; auto].
+  all: apply IH; [first [apply round_ctx_halt; auto; fail|apply round_ctx_emit; auto]|first [apply H_halt_after; auto; fail|apply H_probe_o; auto]].
 Qed.
 
+Lemma notify_fill_k s mkid r : round_ctx mkid s -> P s -> P (notify_fill s mkid r).
+Proof.
+  intros C H. unfold notify_fill. destruct r; auto.
+  assert (C1 : round_ctx mkid (guard s (fun s => callback s bagent 3 (RExec mk time bagent sagent bid sid p v) mkid))).
+  { apply round_ctx_guard; auto. intros; apply round_ctx_callback; auto. }
+  assert (H1 : P (guard s (fun s => callback s bagent 3 (RExec mk time bagent sagent bid sid p v) mkid))).
+  { apply guard_k; auto; intros; apply callback_k; auto. }
+  set (s1 := guard s _) in *.
+  assert (C2 : round_ctx mkid (guard s1 (fun s => callback s sagent 3 (RExec mk time bagent sagent bid sid p v) mkid))).
+  { apply round_ctx_guard; auto. intros; apply round_ctx_callback; auto. }
+  assert (H2 : P (guard s1 (fun s => callback s sagent 3 (RExec mk time bagent sagent bid sid p v) mkid))).
+  { apply guard_k; auto; intros; apply callback_k; auto. }
+  set (s2 := guard s1 _) in *.
+  unfold guard at 1. destruct (ok s2); auto. apply fire_exec_after_k; auto.
+Qed.
+
+Lemma round_ctx_do_fills mkid s m' logs : cur_switch s = true -> round_ctx mkid (do_fills s mkid m' logs).
+Proof.
+  intros Sw. left. unfold do_fills.
+  destruct (log_events_fields logs (set_market s mkid m')) as [Se C]. unfold cur_switch in *. cbn. rewrite Se, C. exact Sw.
+Qed.
+
+Lemma run_round_k s mkid : P s -> P (run_round s mkid).
+Proof.
+  intros H. unfold run_round. destruct (cur_switch s) eqn:Sw; simpl; auto.
+  destruct (find_mkt mkid (s_markets s)) as [x|] eqn:Fx; [|apply H_fail; auto].
+  destruct (execution (mk_m x)) as [[m' logs]|e] eqn:Ex; [|eapply H_fail_exec; eauto; eapply H_round; eauto].
+  assert (G : forall l s0, round_ctx mkid s0 -> P s0 ->
+              P (fold_left (fun s r => notify_fill s mkid r) l s0) ).
+  { induction l as [|r rest IH]; simpl; intros s0 C0 H0; auto.
+    apply IH; [apply round_ctx_notify; auto|apply notify_fill_k; auto]. }
+  apply G.
+  - apply round_ctx_do_fills. exact Sw.
+  - eapply H_fills; [exact Fx|exact Ex|exact Sw|eexists; reflexivity|eapply H_round; eauto].
+Qed.
+
+Lemma handle_request_k s r : P s -> P (handle_request s r).
+Proof.
+  intros H. unfold handle_request. destruct (negb (ok s)); auto.
+  destruct (find_mkt (req_market r) (s_markets s)) as [x|] eqn:Fx; [|apply H_fail; auto].
+  destruct r as [tag ag mk buy p v ttlv|tag ag mk].
+  - pose proof (fire_order_before_k s (RNew tag ag mk buy p v ttlv) (mtime x) H) as H1.
+    destruct (fire_order_before s (RNew tag ag mk buy p v ttlv) (mtime x)) as [s1 r']. simpl in H1.
+    destruct (negb (ok s1)); auto.
+    destruct r' as [tag' ag' mk' buy' p' v' ttlv'|]; [|apply H_fail; auto].
+    destruct (find_mkt (req_market (RNew tag ag mk buy p v ttlv)) (s_markets s1)) as [x1|] eqn:Fx1; [|apply H_fail; auto].
+    destruct (assoc tag' (s_tags s1)); [apply H_fail; auto|].
+    destruct (add_order (mk_m x1) ag' mk' buy' p' v' ttlv') as [[m' rc]|e] eqn:Ea; [|apply H_fail; auto; eapply add_order_err_plain; eauto].
+    apply guard_k; [intros; apply run_round_k; auto|].
+    apply guard_k; [intros; apply fire_simple_k; auto|].
+    apply callback_k. eapply H_accept_order; eauto.
+  - cbn [req_market] in *.
+    pose proof (fire_simple_k s HCancel true (mtime x) mk
+                  [voz match assoc tag (s_tags s) with Some (_, i) => Some i | None => None end] eq_refl H) as H1.
+    set (s1 := fire_simple s HCancel true (mtime x) mk _) in *.
+    destruct (negb (ok s1)); auto.
+    destruct (assoc tag (s_tags s)) as [[mm i]|]; [|apply H_fail; auto].
+    destruct (find_mkt mk (s_markets s1)) as [x1|] eqn:Fx1; [|apply H_fail; auto].
+    destruct (cancel_order (mk_m x1) i) as [[m' rc]|e] eqn:Ec; [|apply H_fail; auto; eapply cancel_order_err_plain; eauto].
+    apply guard_k; [intros; apply run_round_k; auto|].
+    apply guard_k; [intros; apply fire_simple_k; auto|].
+    apply callback_k. eapply H_accept_cancel; eauto.
+Qed.
+
+End LiftK.
+
+(* ---- the same lemmas with ONE hypothesis for all consult / probe events (any hook kind) ---- *)
+Section Lift.
+Variable P : sim -> Prop.
+Hypothesis H_fail : forall s e, plain_err e = true -> P s -> P (fail s e).
+Hypothesis H_fail_exec : forall s mkid x e,
+  find_mkt mkid (s_markets s) = Some x -> cur_switch s = true -> execution (mk_m x) = Err e ->
+  P (emit s (EvRound mkid (m_running (mk_m x)) (s_cur s))) -> P (fail (emit s (EvRound mkid (m_running (mk_m x)) (s_cur s))) e).
+Hypothesis H_emit : forall s e, obs_event e -> P s -> P (emit s e).
+Hypothesis H_callback : forall s aid kind r mkid, P s -> P (callback s aid kind r mkid).
+Hypothesis H_accept_order : forall s mkid x ag mk buy p v ttlv m' rc tag,
+  find_mkt mkid (s_markets s) = Some x -> add_order (mk_m x) ag mk buy p v ttlv = Ok (m', rc) ->
+  P s -> P (do_accept_order s mkid x m' rc tag).
+Hypothesis H_accept_cancel : forall s mkid x i m' rc,
+  find_mkt mkid (s_markets s) = Some x -> cancel_order (mk_m x) i = Ok (m', rc) ->
+  P s -> P (do_accept_cancel s mkid m' rc).
+Hypothesis H_round : forall s mkid x,
+  find_mkt mkid (s_markets s) = Some x -> cur_switch s = true ->
+  P s -> P (emit s (EvRound mkid (m_running (mk_m x)) (s_cur s))).
+Hypothesis H_fills : forall s mkid x m' logs,
+  find_mkt mkid (s_markets s) = Some x -> execution (mk_m x) = Ok (m', logs) -> cur_switch s = true ->
+  (exists tr, s_trace s = EvRound mkid (m_running (mk_m x)) (s_cur s) :: tr) ->
+  P s -> P (do_fills s mkid m' logs).
+Hypothesis H_spent : forall s eid, P s ->
+  P (s <| s_events := upd_event eid (fun e => e <| es_spent := true |>) (s_events s) |>).
+Hypothesis H_halt_after : forall s e mkid, In e (s_events s) -> round_ctx mkid s -> P s -> P (halt_after_execution s e mkid).
+Hypothesis H_halt_before : forall s e x, In e (s_events s) -> find_mkt (m_id (mk_m x)) (s_markets s) = Some x -> P s -> P (halt_before_step s e x).
+Hypothesis H_shock : forall s e x, find_mkt (m_id (mk_m x)) (s_markets s) = Some x -> P s -> P (shock_before_step s e x).
+
+Let HPo : forall s ev k before mkid extra, order_phase k = true -> P s -> P (emit s (ev_probe s ev k before mkid extra)) :=
+  fun s ev k before mkid extra _ H => H_emit s (ev_probe s ev k before mkid extra) I H.
+
+Lemma fire_order_before_pres s r t : P s -> P (fst (fire_order_before s r t)).
+Proof. apply (fire_order_before_k P H_fail HPo H_spent). Qed.
+Lemma fire_simple_pres s k before t mkid extra : P s -> P (fire_simple s k before t mkid extra).
+Proof.
+  intros H. unfold fire_simple. apply fold_left_pres; auto.
+  intros s0 h H0. destruct (ok s0 && is_probe s0 h); auto. apply H_emit; simpl; auto.
+Qed.
+Lemma fire_exec_after_pres s t mkid extra : round_ctx mkid s -> P s -> P (fire_exec_after s t mkid extra).
+Proof. apply (fire_exec_after_k P HPo H_halt_after). Qed.
 Lemma fire_market_pres s before mkid : P s -> P (fire_market s before mkid).
 Proof.
   intros H. unfold fire_market. destruct (find_mkt mkid (s_markets s)) as [x0|]; auto.
@@ -247,71 +352,10 @@ Proof.
   - destruct before; auto.
   - apply H_emit; simpl; auto.
 Qed.
-
 Lemma notify_fill_pres s mkid r : round_ctx mkid s -> P s -> P (notify_fill s mkid r).
-Proof.
-  intros C H. unfold notify_fill. destruct r; auto.
-  assert (C1 : round_ctx mkid (guard s (fun s => callback s bagent 3 (RExec mk time bagent sagent bid sid p v) mkid))).
-  { apply round_ctx_guard; auto. intros; apply round_ctx_callback; auto. }
-  assert (H1 : P (guard s (fun s => callback s bagent 3 (RExec mk time bagent sagent bid sid p v) mkid))).
-  { apply guard_pres; auto; intros; apply callback_pres; auto. }
-  set (s1 := guard s _) in *.
-  assert (C2 : round_ctx mkid (guard s1 (fun s => callback s sagent 3 (RExec mk time bagent sagent bid sid p v) mkid))).
-  { apply round_ctx_guard; auto. intros; apply round_ctx_callback; auto. }
-  assert (H2 : P (guard s1 (fun s => callback s sagent 3 (RExec mk time bagent sagent bid sid p v) mkid))).
-  { apply guard_pres; auto; intros; apply callback_pres; auto. }
-  set (s2 := guard s1 _) in *.
-  unfold guard at 1. destruct (ok s2); auto. apply fire_exec_after_pres; auto.
-Qed.
-
-Lemma round_ctx_do_fills mkid s m' logs : cur_switch s = true -> round_ctx mkid (do_fills s mkid m' logs).
-Proof.
-  intros Sw. left. unfold do_fills.
-  destruct (log_events_fields logs (set_market s mkid m')) as [Se C]. unfold cur_switch in *. cbn. rewrite Se, C. exact Sw.
-Qed.
-
-Lemma run_round_pres s mkid : P s -> P (run_round s mkid).
-Proof.
-  intros H. unfold run_round. destruct (cur_switch s) eqn:Sw; simpl; auto.
-  destruct (find_mkt mkid (s_markets s)) as [x|] eqn:Fx; [|apply H_fail; auto].
-  destruct (execution (mk_m x)) as [[m' logs]|e] eqn:Ex; [|eapply H_fail_exec; eauto; eapply H_round; eauto].
-  assert (G : forall l s0, round_ctx mkid s0 -> P s0 ->
-              P (fold_left (fun s r => notify_fill s mkid r) l s0) ).
-  { induction l as [|r rest IH]; simpl; intros s0 C0 H0; auto.
-    apply IH; [apply round_ctx_notify; auto|apply notify_fill_pres; auto]. }
-  apply G.
-  - apply round_ctx_do_fills. exact Sw.
-  - eapply H_fills; [exact Fx|exact Ex|exact Sw|eexists; reflexivity|eapply H_round; eauto].
-Qed.
-
+Proof. apply (notify_fill_k P HPo H_callback H_halt_after). Qed.
 Lemma handle_request_pres s r : P s -> P (handle_request s r).
-Proof.
-  intros H. unfold handle_request. destruct (negb (ok s)); auto.
-  destruct (find_mkt (req_market r) (s_markets s)) as [x|] eqn:Fx; [|apply H_fail; auto].
-  destruct r as [tag ag mk buy p v ttlv|tag ag mk].
-  - pose proof (fire_order_before_pres s (RNew tag ag mk buy p v ttlv) (mtime x) H) as H1.
-    destruct (fire_order_before s (RNew tag ag mk buy p v ttlv) (mtime x)) as [s1 r']. simpl in H1.
-    destruct (negb (ok s1)); auto.
-    destruct r' as [tag' ag' mk' buy' p' v' ttlv'|]; [|apply H_fail; auto].
-    destruct (find_mkt (req_market (RNew tag ag mk buy p v ttlv)) (s_markets s1)) as [x1|] eqn:Fx1; [|apply H_fail; auto].
-    destruct (assoc tag' (s_tags s1)); [apply H_fail; auto|].
-    destruct (add_order (mk_m x1) ag' mk' buy' p' v' ttlv') as [[m' rc]|e] eqn:Ea; [|apply H_fail; auto; eapply add_order_err_plain; eauto].
-    apply guard_pres; [intros; apply run_round_pres; auto|].
-    apply guard_pres; [intros; apply fire_simple_pres; auto|].
-    apply callback_pres. eapply H_accept_order; eauto.
-  - cbn [req_market] in *.
-    pose proof (fire_simple_pres s HCancel true (mtime x) mk
-                  [voz match assoc tag (s_tags s) with Some (_, i) => Some i | None => None end] H) as H1.
-    set (s1 := fire_simple s HCancel true (mtime x) mk _) in *.
-    destruct (negb (ok s1)); auto.
-    destruct (assoc tag (s_tags s)) as [[mm i]|]; [|apply H_fail; auto].
-    destruct (find_mkt mk (s_markets s1)) as [x1|] eqn:Fx1; [|apply H_fail; auto].
-    destruct (cancel_order (mk_m x1) i) as [[m' rc]|e] eqn:Ec; [|apply H_fail; auto; eapply cancel_order_err_plain; eauto].
-    apply guard_pres; [intros; apply run_round_pres; auto|].
-    apply guard_pres; [intros; apply fire_simple_pres; auto|].
-    apply callback_pres. eapply H_accept_cancel; eauto.
-Qed.
-
+Proof. apply (handle_request_k P H_fail H_fail_exec HPo H_callback H_accept_order H_accept_cancel H_round H_fills H_spent H_halt_after). Qed.
 End Lift.
 
 Definition fail_any (P : sim -> Prop) (H : forall s e, P s -> P (fail s e)) : forall s e, plain_err e = true -> P s -> P (fail s e) :=
